@@ -123,7 +123,7 @@ fn gen_opts(t: &mut Tape, target: Target) -> (Vec<String>, Vec<Opt>) {
                 opts.push(gen_bool(t, "export"));
             }
             if t.chance(1, 3) {
-                opts.push(Opt { name: "?Send", form: Form::Bare, text: Some("?Send") });
+                opts.push(Opt { name: "?Send", form: Form::Bare, text: None });
             }
             if t.chance(1, 2) {
                 opts.push(Opt { name: "mock_api", form: Form::Bare, text: Some("mock_api = FooMock") });
@@ -150,7 +150,7 @@ fn gen_opts(t: &mut Tape, target: Target) -> (Vec<String>, Vec<Opt>) {
                 _ => opts.push(Opt { name: "delegate_by", form: Form::Bare, text: Some("delegate_by = Self") }),
             }
             if t.chance(1, 3) {
-                opts.push(Opt { name: "?Send", form: Form::Bare, text: Some("?Send") });
+                opts.push(Opt { name: "?Send", form: Form::Bare, text: None });
             }
             if t.chance(1, 2) {
                 opts.push(Opt { name: "mock_api", form: Form::Bare, text: Some("mock_api = TrMock") });
@@ -340,7 +340,8 @@ fn check_pair(p: &Pair) -> Result<PairVerdict, String> {
 // ---------- acceptance matrix ----------
 
 /// (option text, documented targets)
-const MATRIX: [(&str, &[Target]); 16] = [
+const MATRIX: [(&str, &[Target]); 17] = [
+    ("?Send = true", &[Target::Fn, Target::Mod, Target::Trait]),
     ("no_deps", &[Target::Fn]),
     ("no_deps = true", &[Target::Fn]),
     ("export", &[Target::Fn, Target::Mod]),
